@@ -1,1 +1,422 @@
-//! C15 - not built yet
+//! C15 - renaming is harmless and emitted names are hygienic.
+//!
+//! Programs are generated with identifier placeholders and rendered under a neutral naming s0 and a second
+//! injective naming s1 that is either fresh or adversarial (reserved words / built-in names of both targets,
+//! names of the form x_N, the exporters' own generated names). Differential monitor: output(s1) equals
+//! output(s0) with the renaming applied (fresh s1). Invariant monitors on the emitted trees: no declared name
+//! is reserved in the target (independent lists), no two entities of one scope share a name, fresh unique names
+//! are kept verbatim. Execution leg: the renamed program still means the same (C01/C02 oracles).
+
+use crate::gen::prog::{self, IdKind, Program};
+use crate::json::Json;
+use crate::oracle::{decls, names};
+use crate::report::{Ctx, Report};
+use crate::rng::{hash_str, Rng};
+use crate::rs::{self, Mode, Opts, Outcome, Tgt};
+use crate::CheckDef;
+use std::collections::{BTreeMap, HashSet};
+
+pub fn def() -> CheckDef {
+    CheckDef {
+        id: "C15",
+        salt: 0xC15,
+        rule: "generated programs with identifier placeholders (gen::prog, no double) rendered under a neutral naming s0 and an injective \
+               naming s1: (A) fresh random names, (B) adversarial names for a random subset of the identifiers - every keyword / type / \
+               builtin name of the oracle's own HLSL and MSL lists, names of the form <other identifier>_N, and the exporters' own generated \
+               names (out, in, __x, ArgumentBuffer0, ComputeShaderEntry, helper, metal ...); renamings that RSSL itself rejects are skipped. \
+               Targets: HlslForDirectX and Msl. evaluations = (program, naming, target) outputs examined; distinct_nontrivial = distinct \
+               (program, naming) pairs for which both namings compiled",
+        assumptions: &[
+            "reserved / built-in name lists were written for the oracle from the HLSL and Metal language references and kept to unquestionably reserved names",
+            "'kept verbatim' is only checked for fresh neutral names (which no list reserves) that are not overloaded or templates",
+            "meaning after renaming is checked with the C01 / C02 oracles (same trusted base)",
+        ],
+        min_distinct: (300, 6000),
+        deadline_s: (100.0, 900.0),
+        run,
+        replay,
+    }
+}
+
+const GENERATED_NAMES: &[&str] = &[
+    "out", "in", "helper", "metal", "ArgumentBuffer0", "ArgumentBuffer1", "ComputeShaderEntry", "PixelShaderEntry", "VertexShaderEntry", "VertexOutput",
+    "PixelInput", "PixelOutput", "o_mesh", "o_payload", "set0", "g_inlineDescriptor0", "thread_index_in_simdgroup", "threads_per_simdgroup", "true_type",
+];
+
+fn fresh_name(rng: &mut Rng, n: usize) -> String {
+    let letters = b"abcdefghijkmnopqrstuvwxyz";
+    let mut s = String::from("q");
+    for _ in 0..4 {
+        s.push(letters[rng.below(letters.len())] as char);
+    }
+    // no trailing _digits: those look like generated suffixes
+    format!("{}{}k", s, n)
+}
+
+pub struct Naming {
+    pub names: Vec<String>,
+    pub adversarial: Vec<usize>,
+}
+
+pub fn naming(p: &Program, rng: &mut Rng, adversarial: bool) -> Naming {
+    let hlsl = names::hlsl_reserved();
+    let msl = names::msl_reserved();
+    let mut used: HashSet<String> = HashSet::new();
+    let mut out = Vec::new();
+    let mut adv = Vec::new();
+    for (i, id) in p.idents.iter().enumerate() {
+        let mut name = fresh_name(rng, i);
+        if adversarial && rng.chance(1, 3) {
+            let candidate = match rng.below(6) {
+                0 | 1 => rng.pick(&hlsl).clone(),
+                2 | 3 => rng.pick(&msl).clone(),
+                4 => rng.pick(GENERATED_NAMES).to_string(),
+                _ => {
+                    // <name of another identifier>_N and __<name>
+                    if out.is_empty() {
+                        "x_0".to_string()
+                    } else {
+                        let other: &String = &out[rng.below(out.len())];
+                        if rng.chance(1, 4) {
+                            format!("__{}", other)
+                        } else {
+                            format!("{}_{}", other, rng.below(3))
+                        }
+                    }
+                }
+            };
+            // type-like identifiers must stay usable as types: keywords that are statements cannot work anyway; rssl decides
+            let _ = id.kind;
+            if !used.contains(&candidate) {
+                name = candidate;
+                adv.push(i);
+            }
+        }
+        while used.contains(&name) {
+            name.push('z');
+        }
+        used.insert(name.clone());
+        out.push(name);
+    }
+    Naming { names: out, adversarial: adv }
+}
+
+fn tokens(text: &str) -> Vec<String> {
+    let mut out = Vec::new();
+    let chars: Vec<char> = text.chars().collect();
+    let mut i = 0;
+    while i < chars.len() {
+        let c = chars[i];
+        let start = i;
+        if c.is_alphabetic() || c == '_' {
+            while i < chars.len() && (chars[i].is_alphanumeric() || chars[i] == '_') {
+                i += 1;
+            }
+        } else if c.is_ascii_digit() {
+            // numbers incl. suffix letters and exponents
+            while i < chars.len() && (chars[i].is_alphanumeric() || chars[i] == '.' || ((chars[i] == '+' || chars[i] == '-') && (chars[i - 1] == 'e' || chars[i - 1] == 'E'))) {
+                i += 1;
+            }
+        } else {
+            i += 1;
+        }
+        out.push(chars[start..i].iter().collect());
+    }
+    out
+}
+
+/// Apply the renaming s0 -> s1 to emitted text: exact names, generated suffix forms name_N and __name
+fn rename_text(text: &str, map: &BTreeMap<String, String>) -> String {
+    let mut out = String::with_capacity(text.len());
+    for t in tokens(text) {
+        if let Some(n) = map.get(&t) {
+            out.push_str(n);
+            continue;
+        }
+        // name_N
+        if let Some(pos) = t.rfind('_') {
+            let (base, suffix) = (&t[..pos], &t[pos + 1..]);
+            if !suffix.is_empty() && suffix.chars().all(|c| c.is_ascii_digit()) {
+                // possibly several suffixes: name_0_1
+                let renamed_base = rename_text(base, map);
+                if renamed_base != base {
+                    out.push_str(&format!("{}_{}", renamed_base, suffix));
+                    continue;
+                }
+            }
+        }
+        if let Some(base) = t.strip_prefix("__") {
+            if let Some(n) = map.get(base) {
+                out.push_str(&format!("__{}", n));
+                continue;
+            }
+        }
+        out.push_str(&t);
+    }
+    out
+}
+
+fn compile_one(text: &str, t: Tgt) -> Outcome {
+    rs::compile_text(text, &Opts::new(t, Mode::NoPipeline))
+}
+
+struct Case {
+    program: Program,
+    s1: Naming,
+    mode: &'static str,
+}
+
+fn make_case(seed: u64, index: u64) -> Case {
+    let mut rng = Rng::for_case(seed, 0x15a, index);
+    let mut cfg = prog::Config::default();
+    cfg.allow_double = false;
+    cfg.max_functions = 5;
+    let program = prog::generate(&mut rng, cfg);
+    let adversarial = index % 3 != 0;
+    let s1 = naming(&program, &mut rng, adversarial);
+    Case {
+        program,
+        s1,
+        mode: if adversarial { "adversarial" } else { "fresh" },
+    }
+}
+
+fn overloaded_or_template(p: &Program) -> HashSet<usize> {
+    p.multi.iter().cloned().collect()
+}
+
+pub fn examine(case: &Case, origin: &str, seed: u64, report: &mut Report) -> bool {
+    let p = &case.program;
+    let text0 = p.render();
+    let text1 = p.render_with(&|i, _| case.s1.names[i].clone());
+    let mut map = BTreeMap::new();
+    for (i, id) in p.idents.iter().enumerate() {
+        map.insert(id.name.clone(), case.s1.names[i].clone());
+    }
+    let hlsl_reserved: HashSet<String> = names::hlsl_reserved().into_iter().collect();
+    let msl_reserved: HashSet<String> = names::msl_reserved().into_iter().collect();
+    let skip_verbatim = overloaded_or_template(p);
+    let mut any = false;
+    for t in [Tgt::Dx, Tgt::Msl] {
+        let o0 = compile_one(&text0, t);
+        let Outcome::Ok(p0) = &o0 else {
+            report.count(&format!("skipped:s0-not-compiled:{}", o0.class()));
+            continue;
+        };
+        let o1 = compile_one(&text1, t);
+        let p1 = match &o1 {
+            Outcome::Ok(p1) => p1,
+            Outcome::Diag(d) => {
+                // rssl does not allow this spelling as an identifier (or the backend rejects): outside the quantifier
+                report.count("skipped:renamed-source-rejected");
+                let _ = d;
+                continue;
+            }
+            Outcome::Panic(c) => {
+                report.count(&format!("skipped:panic:{}", c.signature()));
+                continue;
+            }
+            Outcome::Budget { .. } => continue,
+        };
+        report.evaluations += 1;
+        any = true;
+        report.count(&format!("examined:{}:{}", case.mode, t.name()));
+        let witness = |extra: Json| -> Json {
+            Json::obj()
+                .set("origin", origin)
+                .set("target", t.name())
+                .set("naming", case.mode)
+                .set("arg_seed", Json::Str(seed.to_string()))
+                .set("program_s0", text0.as_str())
+                .set("program_s1", text1.as_str())
+                .set("multi_s0", Json::Arr(p.multi.iter().map(|i| Json::str(&p.idents[*i].name)).collect()))
+                .set("emitted_s1", p1[0].source.as_str())
+                .set("observed", extra)
+        };
+
+        // M1: identical up to renaming (fresh names only: adversarial names legitimately get suffixes)
+        if case.mode == "fresh" {
+            let expected = rename_text(&p0[0].source, &map);
+            if expected != p1[0].source {
+                let (a, b) = first_diff(&expected, &p1[0].source);
+                report.violation(
+                    "not-identical-up-to-renaming",
+                    &format!("output for fresh names differs from the renamed output of the neutral names ({}): expected `{}`, got `{}`", t.name(), a.trim(), b.trim()),
+                    witness(Json::obj().set("expected_line", a).set("actual_line", b).set("emitted_s0", p0[0].source.as_str())),
+                );
+            } else {
+                report.count("renaming:identical");
+            }
+        }
+
+        // M2: hygiene of the emitted declarations
+        let reserved = if t == Tgt::Msl { &msl_reserved } else { &hlsl_reserved };
+        for (which, pipe, text) in [("s0", &p0[0], &text0), ("s1", &p1[0], &text1)] {
+            let Some(tree) = &pipe.tree else {
+                report.inconclusive("the exporter hook recorded no syntax tree");
+                continue;
+            };
+            let declared = decls::declared_names(tree);
+            report.count_n("declarations-examined", declared.len() as u64);
+            for d in &declared {
+                if reserved.contains(&d.name) {
+                    report.violation(
+                        &format!("reserved-name-declared:{}:{}", if t == Tgt::Msl { "msl" } else { "hlsl" }, d.name),
+                        &format!("the emitted {} declares a {} named `{}`, which is reserved / built in in the target language", t.name(), d.kind, d.name),
+                        witness(Json::obj().set("declaration", d.name.as_str()).set("kind", d.kind).set("scope", d.scope.as_str()).set("naming", which)),
+                    );
+                }
+            }
+            for (a, b) in decls::clashes(&declared) {
+                report.violation(
+                    "name-clash-in-scope",
+                    &format!("the emitted {} declares {} `{}` and {} `{}` in the same scope {}", t.name(), a.kind, a.name, b.kind, b.name, a.scope),
+                    witness(Json::obj().set("first", a.kind).set("second", b.kind).set("name", a.name.as_str()).set("scope", a.scope.as_str()).set("naming", which)),
+                );
+            }
+            // kept verbatim: fresh / neutral unique names
+            let names_now: Vec<&String> = if which == "s0" { p.idents.iter().map(|i| &i.name).collect() } else { case.s1.names.iter().collect() };
+            let declared_set: HashSet<&str> = declared.iter().map(|d| d.name.as_str()).collect();
+            for (i, id) in p.idents.iter().enumerate() {
+                if skip_verbatim.contains(&i) || id.kind == IdKind::TemplateParam {
+                    continue;
+                }
+                if which == "s1" && case.s1.adversarial.contains(&i) {
+                    continue;
+                }
+                // other identifiers with adversarial names of the form <this>_N could legitimately displace nothing; this name itself is fresh
+                let name = names_now[i];
+                if !text.contains(name.as_str()) {
+                    continue;
+                }
+                if !declared_set.contains(name.as_str()) {
+                    // static const globals may be folded away, parameters of removed functions etc.: only report when some
+                    // declaration carries a suffixed form of the name, i.e. the entity exists but was renamed
+                    let renamed = declared.iter().find(|d| d.name.starts_with(&format!("{}_", name)) && d.name[name.len() + 1..].chars().all(|c| c.is_ascii_digit()));
+                    if let Some(r) = renamed {
+                        report.violation(
+                            "unique-name-not-kept",
+                            &format!("the user name `{}` ({:?}) is unique and not reserved but is emitted as `{}` in {}", name, id.kind, r.name, t.name()),
+                            witness(Json::obj().set("name", name.as_str()).set("emitted_as", r.name.as_str()).set("naming", which)),
+                        );
+                    }
+                } else {
+                    report.count("kept-verbatim");
+                }
+            }
+        }
+    }
+    if !any {
+        return false;
+    }
+    // M3: the renamed program still means what it says (C01 / C02 oracles on the renamed source)
+    let mut sub = Report::new();
+    crate::checks::c01::examine_program(&text1, origin, seed, &mut sub);
+    crate::checks::c02::examine_program(&text1, origin, seed, &mut sub);
+    report.count_n("execution-samples-on-renamed-program", sub.evaluations);
+    for v in sub.violations {
+        report.violation(&format!("renamed-program:{}", v.signature), &format!("after renaming ({}): {}", case.mode, v.summary), v.witness.set("naming", case.mode).set("program_s0", text0.as_str()));
+    }
+    for (k, n) in sub.counters {
+        if k.starts_with("skipped:function-not-found-by-name") {
+            report.count_n("execution:function-renamed-skipped", n);
+        }
+    }
+    true
+}
+
+fn first_diff(a: &str, b: &str) -> (String, String) {
+    let mut la = a.lines();
+    let mut lb = b.lines();
+    loop {
+        match (la.next(), lb.next()) {
+            (Some(x), Some(y)) if x == y => continue,
+            (x, y) => return (x.unwrap_or("<end>").to_string(), y.unwrap_or("<end>").to_string()),
+        }
+    }
+}
+
+fn run(ctx: &Ctx) -> Report {
+    let n = ctx.tier.pick(1_200, 40_000);
+    let seed = ctx.seed;
+    let mut report = crate::par::run_cases(ctx, n, |index, report| {
+        let case = make_case(seed, index);
+        let origin = format!("generated:{}:{}", index, case.mode);
+        if examine(&case, &origin, seed ^ index, report) {
+            report.distinct(hash_str(&case.program.template) ^ index);
+            for i in &case.s1.adversarial {
+                report.count(&format!("adversarial-kind:{:?}", case.program.idents[*i].kind));
+            }
+            report.count_n("adversarial-names-used", case.s1.adversarial.len() as u64);
+            if report.want_sample() && index % 13 == 4 {
+                let pairs: Vec<Json> = case.s1.adversarial.iter().take(12).map(|i| Json::str(format!("{} -> {}", case.program.idents[*i].name, case.s1.names[*i]))).collect();
+                report.sample(Json::obj().set("origin", origin).set("adversarial_renamings", Json::Arr(pairs)).set("program_s1_prefix", case.program.render_with(&|i, _| case.s1.names[i].clone()).chars().take(500).collect::<String>()));
+            }
+        }
+    });
+    // which reserved names were exercised at all
+    report.notes.push(format!("oracle lists: {} HLSL and {} MSL reserved / built-in names", names::hlsl_reserved().len(), names::msl_reserved().len()));
+    report
+}
+
+fn replay(ctx: &Ctx, witness: &Json) -> Report {
+    let mut report = Report::new();
+    // a witness stores both renderings; rebuild a placeholder-free "program" whose identifiers are the s0 names
+    let (Some(t0), Some(t1)) = (witness.get_str("program_s0"), witness.get_str("program_s1")) else {
+        report.inconclusive("witness without both renderings");
+        return report;
+    };
+    // recover the renaming by aligning the token streams of the two renderings
+    let (k0, k1) = (tokens(t0), tokens(t1));
+    if k0.len() != k1.len() {
+        report.inconclusive("renderings do not align");
+        return report;
+    }
+    let mut idents: Vec<prog::Ident> = Vec::new();
+    let mut names1: Vec<String> = Vec::new();
+    let mut template = String::new();
+    let mut adversarial = Vec::new();
+    for (a, b) in k0.iter().zip(&k1) {
+        if a != b {
+            let idx = match idents.iter().position(|i| &i.name == a) {
+                Some(i) => i,
+                None => {
+                    idents.push(prog::Ident {
+                        kind: IdKind::Local,
+                        name: a.clone(),
+                    });
+                    names1.push(b.clone());
+                    if !b.starts_with('q') {
+                        adversarial.push(idents.len() - 1);
+                    }
+                    idents.len() - 1
+                }
+            };
+            template.push_str(&format!("\u{1}{}\u{2}", idx));
+        } else {
+            template.push_str(a);
+        }
+    }
+    let case = Case {
+        program: Program {
+            template,
+            idents,
+            entries: Vec::new(),
+            features: Vec::new(),
+            multi: Vec::new(),
+        },
+        s1: Naming { names: names1, adversarial },
+        mode: if witness.get_str("naming") == Some("fresh") { "fresh" } else { "adversarial" },
+    };
+    let mut case = case;
+    if let Some(multi) = witness.get("multi_s0").and_then(|m| m.as_arr()) {
+        for m in multi {
+            if let Some(i) = case.program.idents.iter().position(|id| Some(id.name.as_str()) == m.as_str()) {
+                case.program.multi.push(i);
+            }
+        }
+    }
+    let seed = witness.get_str("arg_seed").and_then(|s| s.parse::<u64>().ok()).unwrap_or(ctx.seed);
+    examine(&case, "replay", seed, &mut report);
+    report
+}
